@@ -65,8 +65,8 @@ def step (st : St) : List String → St × String
         let out := s!"ok M={showNatList Ms} Mo={showNatList Mos} dT={showRatList (ps.map (·.dT))} " ++
           s!"zeroT={showRatList (ps.map (·.zeroT))} cutin={showCut (cutouts Ns Ms)} " ++
           s!"cutout={showCut (cutouts Mos Ms)} w={showRat w} " ++
-          s!"slackq={showRat (minList (axes.map fun a => roundSlack (a.q * a.N)))} " ++
-          s!"slackfov={showRat (minList ((axes.zip ps).map fun (a, p) => outSlack p.M a.fov))}"
+          s!"slackq={showRatList (axes.map fun a => roundSlack (a.q * a.N))} " ++
+          s!"slackfov={showRatList ((axes.zip ps).map fun (a, p) => outSlack p.M a.fov)}"
         (st, out)
     | _, _, _, _, _, _ => (st, "bad-op")
   | ["cons", N, M, Mo, d, dT] =>
